@@ -1,0 +1,25 @@
+//go:build verif
+
+package util
+
+import (
+	builder "github.com/attestantio/go-builder-client"
+)
+
+// WrapBuilderClientsC09 replaces every client held in the cache used by FetchBuilderClient by
+// wrap(key, client), whatever the key under which FetchBuilderClient holds it.  Verification
+// harnesses use it to put a scripted relay behind a client that FetchBuilderClient has itself
+// constructed (so that the client's own properties -- address, public key parsed from the
+// address -- are those of the real constructor and of the real cache lookup).
+// An entry for which wrap returns nil is removed.  Only compiled with the "verif" build tag.
+func WrapBuilderClientsC09(wrap func(key string, client builder.Service) builder.Service) {
+	buildersMu.Lock()
+	defer buildersMu.Unlock()
+	for key, client := range builders {
+		if wrapped := wrap(key, client); wrapped != nil {
+			builders[key] = wrapped
+		} else {
+			delete(builders, key)
+		}
+	}
+}
